@@ -51,7 +51,7 @@ class C20(Check):
     rule = (
         "cases: operation/call histories of up to 9 steps over 2 endpoints x 3 methods (one never patched): add(result | error | callback | callback that raises, patches carrying an id of their own, "
         "once on/off), replace(existing index), remove(endpoint, method) / remove(endpoint) (existing only), reset, call (positional / named / "
-        "absent params, ids incl. 0 and '' via hand-built request texts), batch call (1..3 elements incl. unpatched methods), notifications to endpoints without patches, plus structured scenarios (2..3 patches on one pair, a replace at a chosen index, then a full rotation of calls); passthrough "
+        "absent params, ids incl. 0 and '' via hand-built request texts), batch call (1..3 elements incl. unpatched methods), notifications to endpoints without patches, plus structured scenarios (2..3 patches on one pair, a replace at a chosen index, then a full rotation of calls; two methods patched on one endpoint of which one is used up or removed); passthrough "
         "on/off; sync and async targets (harness client classes patched through PjRpcMocker(target=...); the shipped PjRpcRequestsMocker "
         "shortcut for a share of the sync runs). Oracle: a model endpoint -> (method -> list of patches) + recorded calls: a call is answered "
         "by the head patch, which rotates to the tail unless `once`; exhausted lists disappear; the reply carries the request id and the "
@@ -105,7 +105,16 @@ class C20(Check):
         s_scenario = st.builds(scenario, s_ep, st.sampled_from([0, 1]), st.lists(s_patch, min_size=2, max_size=3),
                                st.lists(st.sampled_from([False, False, True]), min_size=3, max_size=3), st.integers(0, 2), s_patch, st.booleans(),
                                st.sampled_from(['replace', 'replace', 'remove']))
-        s_ops = st.one_of(st.lists(s_op, min_size=2, max_size=8), st.lists(s_op, min_size=2, max_size=8), s_scenario)
+        # two methods patched on one endpoint; one of them is used up (once) or removed; the other must keep answering
+        def scenario2(e, p1, p2, how, extra_call):
+            ops = [['add', e, 0, p1, how == 'once'], ['add', e, 1, p2, False]]
+            ops.append(['call', e, 0, [1], 1] if how == 'once' else ['remove', e, 0])
+            ops += [['call', e, 1, [2], 2], ['call', e, 0, [3], 3], ['call', e, 1, {'a': 4}, 4]]
+            if extra_call:
+                ops.append(['batch', e, [[1, [5]], [0, None], [2, None]]])
+            return ops
+        s_scenario2 = st.builds(scenario2, s_ep, s_patch, s_patch, st.sampled_from(['once', 'remove']), st.booleans())
+        s_ops = st.one_of(st.lists(s_op, min_size=2, max_size=8), st.lists(s_op, min_size=2, max_size=8), s_scenario, s_scenario2)
         return st.builds(
             lambda t, pt, ops: {'target': t, 'passthrough': pt if t != 'requests' else False, 'ops': [list(o) for o in ops]},
             st.sampled_from(['sync', 'sync', 'async', 'async', 'requests']), st.booleans(), s_ops,
